@@ -21,6 +21,10 @@ def stepStr (fields : List String) : Option String :=
   | ["py.islinebreak", s] => do
       let t ← decodeText s
       pure (String.ofList (t.map fun c => if Py.isLineBreak c then '1' else '0'))
+  | ["py.digitval", s] => do
+      let t ← decodeText s
+      pure (String.ofList (t.map fun c => Char.ofNat (48 + Model.digitVal c)))
+  | ["py.yearval", s] => do pure (toString (Model.yearVal (← decodeText s)))
   | _ => none
 
 end Ops
